@@ -3,7 +3,8 @@
   Property theorems only.  Model: PS/Model/Dsl.lean (`instantiate`, a transcription of
   `DSL.instantiate_polymorphic_types` with the repairs C14-F2 and C14-F3), specification:
   PS/Spec/Dsl.lean (`Instances`: simultaneous admissible substitution over the documented
-  universe, one alternative per sum, unit arguments dropped), lemmas: PS/Proofs/Dsl.lean.
+  universe, one alternative per sum, unit arguments dropped; `specInstances`: its executable
+  form, proved equal in `C14_spec_exec`), lemmas: PS/Proofs/Dsl.lean, PS/Proofs/DslSpec.lean.
 
   All statements are for every list of declared primitives `P` and every bound.
   `WF P`  : the types have the shapes the library's constructors build (an arrow has two
@@ -14,6 +15,7 @@
             (`finding_C14_F4_unit`, `finding_C14_F4_twice` below).
 -/
 import PS.Proofs.Dsl
+import PS.Proofs.DslSpec
 namespace PS.C14
 open PS Ty Dsl
 
@@ -113,6 +115,25 @@ theorem C14_universe (P : List Prim) (u : Ty) : u ∈ typeUniverse (basicTypes P
 /-- `all_versions` = the choices of one alternative for every sum. -/
 theorem C14_versions (t c : Ty) : c ∈ versions t ↔ Choice t c := mem_versions_iff t c
 
+/-- **The executable specification is the declarative one.** The list `specInstances`
+    (PS/Spec/Dsl.lean: enumeration of one candidate per variable name, all versions, unit
+    arguments dropped — the list the driver prints and the harness compares with the code)
+    contains exactly the primitives satisfying the predicate `Instances`.  No hypothesis. -/
+theorem C14_spec_exec (P : List Prim) (bound : Nat) (r : Prim) :
+    r ∈ specInstances P bound ↔ Instances P bound r :=
+  mem_specInstances P bound r
+
+/-- the executable specification lists no primitive twice -/
+theorem C14_spec_exec_once (P : List Prim) (bound : Nat) : (specInstances P bound).Nodup :=
+  nodup_specInstances P bound
+
+/-- model and executable specification have the same elements (both without repetition:
+    `C14_once`, `C14_spec_exec_once`).
+    Full statement (without `UnitSafe`) is violated by the code: see `finding_C14_F4_unit`. -/
+theorem C14_model_eq_spec_exec_partial (P : List Prim) (bound : Nat) (hP : WF P)
+    (hU : UnitSafe P bound) (r : Prim) : r ∈ instantiate P bound ↔ r ∈ specInstances P bound := by
+  rw [C14_sound_complete_partial P bound hP hU r, C14_spec_exec]
+
 /-! ### finding C14-F4: `without_unit_arguments` rewrites function arguments returning unit -/
 
 def tInt : Ty := Ty.prim "int"
@@ -154,6 +175,16 @@ example : (instantiate P 1).length = 10 := by decide
 -- the restricted variable does not take a list type even when the bound allows it
 example : ("pick", Ty.arrow (Ty.list tInt) (Ty.list tInt)) ∉ instantiate (P.drop 1) 3 := by decide +kernel
 example : ("pick", Ty.arrow tInt tInt) ∈ instantiate (P.drop 1) 3 := by decide +kernel
+-- the executable specification: elements, the declarative fact obtained through `C14_spec_exec`,
+-- and agreement with the model through `C14_model_eq_spec_exec_partial`
+example : ("pick", Ty.arrow tBool tBool) ∈ specInstances P 2 := by decide
+example : Instances P 2 ("pick", Ty.arrow tBool tBool) :=
+  (C14_spec_exec P 2 _).mp (by decide)
+example : ¬ Instances P 2 ("pick", Ty.arrow (Ty.list tInt) (Ty.list tInt)) :=
+  fun h => absurd ((C14_spec_exec P 2 _).mpr h) (by decide)
+example : (specInstances P 1).length = 10 ∧ (specInstances P 1).Nodup := by decide
+example : ("map", Ty.arrow (Ty.arrow tInt tBool) (Ty.arrow (Ty.list tInt) (Ty.list tBool))) ∈ specInstances P 1 :=
+  (C14_model_eq_spec_exec_partial P 1 (by decide) (by decide) _).mp (by decide)
 end Example
 
 end PS.C14
